@@ -188,6 +188,19 @@ func c16Parse(c *fw.Ctx, in []byte, kind string) {
 				c.Report("parse/value/"+kind, fmt.Sprintf("tag %d: parsed value is not the bytes at the corresponding input positions", t), cas)
 				return
 			}
+			// the other getters agree with it (and do not panic on zero-length items, which a peer may send)
+			var first byte
+			if len(ref[byte(t)]) > 0 {
+				first = ref[byte(t)][0]
+			}
+			if b := cont.GetByte(byte(t)); b != first {
+				c.Report("parse/get-byte/"+kind, fmt.Sprintf("tag %d: GetByte returns %d, the value starts with %d", t, b, first), cas)
+				return
+			}
+			if str := cont.GetString(byte(t)); str != string(ref[byte(t)]) {
+				c.Report("parse/get-string/"+kind, fmt.Sprintf("tag %d: GetString differs from the value", t), cas)
+				return
+			}
 		}
 		if !bytes.Equal(cont.BytesBuffer().Bytes(), in) {
 			c.Report("parse/reserialise/"+kind, "re-serialising a parsed container does not reproduce the input", cas)
